@@ -26,6 +26,7 @@ from scinumtools.solver import (  # noqa: E402  (bootstrap has run)
     OperatorSin, OperatorCos, OperatorTan, OperatorPow, OperatorSub, OperatorEq,
     OperatorNe, OperatorNot, OperatorLe, OperatorGe, OperatorLt, OperatorAnd, OperatorOr,
 )
+from scinumtools.solver.expression import Expression
 from scinumtools.units.unit_solver import AtomParser
 
 _ADDR = re.compile(r"0x[0-9a-fA-F]+")
@@ -459,7 +460,7 @@ def is_atom_token(t):
 
 
 TEXT_FAULTS = ["unknown_atom", "missing_close", "extra_open", "arity", "no_right",
-               "no_left", "double_op", "empty_par"]
+               "no_left", "double_op", "empty_par", "dangling_exponent"]
 
 
 def text_fault(tokens, kind, pos, family):
@@ -509,6 +510,12 @@ def text_fault(tokens, kind, pos, family):
     if kind == "empty_par":
         i = order[0]
         return tokens[:i] + ["(", ")"] + tokens[i:]
+    if kind == "dangling_exponent":
+        # a number that ends where its exponent should begin: '2e', '7.5E' as the last atom
+        for i in reversed(range(n)):
+            if is_atom_token(tokens[i]) and tokens[i][:1].isdigit() and "e" not in tokens[i].lower():
+                return tokens[:i] + [tokens[i] + ("e" if pos % 2 == 0 else "E")]
+        return None
     return None
 
 
@@ -736,8 +743,11 @@ class SolverMachine(Machine):
                 fault = {"site": rng.choice(cfg["sites"]),
                          "n": rng.randint(1, max(1, self._count_atoms(toks))),
                          "exc": self._exc(rng)}
-        return {"op": "solve", "inst": kind, "expr": render(toks, rng, cfg["blanks"]),
-                "fault": fault, "tf": tf}
+        op = {"op": "solve", "inst": kind, "expr": render(toks, rng, cfg["blanks"]),
+              "fault": fault, "tf": tf}
+        if rng.random() < 0.15:
+            op["as_object"] = True
+        return op
 
     def _exc(self, rng):
         if self.cfg["interrupts"] and rng.random() < 0.4:
@@ -768,12 +778,15 @@ class SolverMachine(Machine):
 
         # no np.errstate() around the calls: NumPy's error mode is process-level state that a
         # solve may leave changed, and a context manager here would put it back unnoticed
+        # the argument is the text, or (the other documented form) an Expression object made
+        # for this call and dropped after it
+        arg = (lambda: Expression(expr)) if op.get("as_object") else (lambda: expr)
         InjectedFault.arm(fault)
-        got = observe(lambda: es.solve(expr))
+        got = observe(lambda: es.solve(arg()))
         fired = InjectedFault.fired
         fresh = KINDS[kind][0]()
         InjectedFault.arm(fault)
-        want = observe(lambda: fresh.solve(expr))
+        want = observe(lambda: fresh.solve(arg()))
         InjectedFault.arm(None)
 
         if fault is not None:
